@@ -168,7 +168,7 @@ class C17(Prop):
         "reverse_strand_windows", "windowed_eq_full_length", "workstate_options", "six_frame_translation", "complement_closed",
         "short_sequences_ignored", "strand_leaves_idle", "translation_total", "initiator_total", "empty_rows", "alt_code_table_spec",
         "file_numbering", "windowed_file_eq_full_length",
-        "set_after_any_history", "set_resets_builtin", "policy_setters_overwrite")]
+        "set_after_any_history", "set_resets_builtin", "policy_setters_overwrite", "printed_record_spec")]
     claimed = True
     technique = ("Lean 4 proof: built-in tables regenerated from the tree = hand-pinned NCBI tables by `decide`; general theorems (any table, any "
                  "degeneracy matrix) that the triple loop computes the shared amino acid / all-initiators; ORF machine modelled and tied by exact "
@@ -191,7 +191,9 @@ class C17(Prop):
                   "loops of esl-translate.c under every WorkstateCreate option combination: six_frame_translation (frames 1-3 = finder over the sequence, 4-6 = finder over the reverse complement from L "
                   "downwards, nothing under --crick / --watson, no other label), reverse_strand_windows (the windows ReadWindow cuts from the 3' end of the top strand = the windows of the reverse "
                   "complement), windowed_eq_full_length + windowed_file_eq_full_length (-W = full length, per sequence and per file, any window size != 1), short_sequences_ignored, file_numbering "
-                  "(orf1..n without gap over strands and sequences), workstate_options.")
+                  "(orf1..n without gap over strands and sequences), workstate_options. Round 6b: histories of calls on ONE object (Set modelled field by field on the existing object): "
+                  "set_after_any_history / set_resets_builtin (after ANY list of Set / SetInitiatorAny / SetInitiatorOnlyAUG / Read, Set(t) leaves exactly the freshly set table t; the same table re-selected "
+                  "after a policy setter gets its own initiators back; an unknown id leaves the object untouched), policy_setters_overwrite.")
     level_note = ("Trusted: Lean kernel + standard axioms; table dumper; hand model fidelity checked by the differential run (all 18^3 triplets x 18 tables "
                   "x 3 settings every run). The one-frame finder is proved equal to the declarative 'split the frame at stops, drop the codons before the first "
                   "initiator, keep >= minlen' (orf_frame_declarative). Read(Write t) = t is a `decide` theorem over all 18 tables x 3 settings on the "
@@ -209,7 +211,7 @@ class C17(Prop):
                    "GetTranslation/IsInitiator on codes >= Kp are driven wherever the model says the loop never dereferences them (behind a gap, * or ~: translation_total); the inputs the model says fault "
                    "(a code >= Kp reached by the loop; DecodeDigicodon outside its bounds: decode_digicodon_bounds) are outside the contracts and not run against the code, where an ASan death would count as a violation",
                    "esl-translate's main(): command-line parsing, file opening and the output of the records with esl_sqio_Write are C13's / C02's business; the harness collects the records in wrk->orf_block, or (out=1) leaves it NULL so that ProcessOrf prints them through esl_sqio_Write to a memory stream: "
-                   "the FASTA text (name, description line, 60 residues per line) is compared exactly with the model's fastaOrf and with an independent rendering in the monitor (tied only, no theorem)",
+                   "the FASTA text (name, description line, 60 residues per line) is compared exactly with the model's fastaOrf and with an independent rendering in the monitor (printed_record_spec: header line + residue lines holding exactly the residues, 60 per line)",
                    "esl_gencode_Read: line splitting + the five anchored regular expressions are modelled by matchLine (total by construction) and tied by exact comparison on byte-level damaged files (readm: flips, "
                    "insertions, deletions, truncation, duplicated / swapped lines, NUL / high bytes / CR / tab / form feed)",
                    "esl_sqio_ReadWindow delivers windows of the strand in reading order with a 2-residue context (C04); the harness builds those windows itself",
@@ -217,7 +219,7 @@ class C17(Prop):
                    "allocation never fails"]
     rule = ("cases = (table, initiator setting) x {all 18^3 triplets; DNA sequences with stops/initiators/degenerate runs at the ends and inside, "
             "min lengths, strands, window splits; whole FASTA files (sequences of 0..5 residues, all-degenerate sequences, lengths around the 4092 window) through esl-translate's two main loops x "
-            "every option combination}; non-trivial = an ORF list with at least one ORF or a full triplet table; distinct by output trace")
+            "every option combination; histories of Set/SetInitiatorAny/SetInitiatorOnlyAUG/Read on one object, the object printed after every call}; non-trivial = an ORF list with at least one ORF or a full triplet table; distinct by output trace")
     quick_budget_s = 60
 
     def generated(self, ctx):
